@@ -1833,6 +1833,9 @@ class DocutilsRenderer(RendererProtocol):
             )
             return [error_msg]
 
+        # a nested directive has moved the line that docutils gives to unstamped nodes
+        self.document.current_line = position
+
         assert isinstance(
             result, list
         ), f'Directive "{name}" must return a list of nodes.'
